@@ -63,7 +63,7 @@ def literals():
 
 LITS = literals()
 LIT_BY_NAME = {l['name']: l for l in LITS}
-PATHS = [('a',), ('r', 'a'), ('r', 'r', 'a'), ('note',), ('order',), ('android',), ('nota',), ('andy',)]
+PATHS = [('a',), ('r', 'a'), ('r', 'r', 'a'), ('note',), ('order',), ('android',), ('nota',), ('andy',), ('r', 'r'), ('a', 'a'), ('a', 'r', 'a'), ('p', 'q', 'a')]
 VALUATIONS = ['absent', 'null', 'marker', 'equal', 'below', 'above', 'other-kind']
 
 
@@ -113,12 +113,13 @@ def atom_rows(path, L, idstyle):
         else:
             chain = [target]
             for depth in range(len(path) - 1):
-                src = {'id': mkid(idstyle, 's%d_%d' % (k, depth)), 'r': ('ref', chain[-1]['id'][1], None)}
+                hop = path[len(path) - 2 - depth]          # the tag that holds the reference at this hop
+                src = {'id': mkid(idstyle, 's%d_%d' % (k, depth)), hop: ('ref', chain[-1]['id'][1], None)}
                 chain.append(src)
             rows.extend(chain)
             judged.append((v, chain[-1]))
     if len(path) > 1:
-        dangling = {'id': mkid(idstyle, 'dangling'), 'r': ('ref', 'nowhere', None)}
+        dangling = {'id': mkid(idstyle, 'dangling'), path[0]: ('ref', 'nowhere', None)}
         rows.append(dangling)
         judged.append(('dangling-ref', dangling))
         noid = {'id': mkid(idstyle, 'noref')}
@@ -304,7 +305,7 @@ def atom_cases(quick):
     ids = ['str', 'ref', 'ref-display']
     for L in LITS:
         for path in PATHS:
-            if quick and path in (('r', 'r', 'a'), ('order',), ('android',), ('andy',)) and L['name'] not in ('number', 'str', 'date', 'ref'):
+            if quick and path in (('r', 'r', 'a'), ('order',), ('android',), ('andy',), ('r', 'r'), ('a', 'a'), ('a', 'r', 'a'), ('p', 'q', 'a')) and L['name'] not in ('number', 'str', 'date', 'ref'):
                 continue
             for idstyle in ids:
                 if len(path) == 1 and idstyle != 'str' and L['name'] != 'number':
@@ -325,7 +326,7 @@ def atom_task(cases):
             if ast[0] != 'cmp' and lname != 'number':
                 continue            # has / not do not depend on the literal: once per path
             text = RF.render(ast)
-            sig = {'part': 'atom', 'op': ast[1] if ast[0] == 'cmp' else ast[0], 'literal': lname, 'path': '->'.join(['x'] * len(path)) if path[-1] == 'a' else path[0],
+            sig = {'part': 'atom', 'op': ast[1] if ast[0] == 'cmp' else ast[0], 'literal': lname, 'path': '->'.join(path),
                    'ids': idstyle}
             case = {'part': 'atom', 'literal': lname, 'path': list(path), 'ids': idstyle, 'op': sig['op']}
             ok = judge(hs, ast, text, rows, judged, st, sig, case)
@@ -398,6 +399,31 @@ def limit_checks(st):
                 st.fail('filter-result-lost-version-metadata-or-columns', sig, case, {})
 
 
+def unversioned_checks(st):
+    """A grid created without a version and upgraded to 3.0 by what it holds: the result carries that version whatever
+    rows the filter selects."""
+    import hszinc as hs
+    for where in ('row', 'meta'):
+        for text, limit in (('a', 0), ('not a', 0), ('a == 5', 0), ('zz', 0), ('', 1), ('', 0), ('a', 1)):
+            g = hs.Grid(columns=[('id', []), ('a', []), ('l', [])])
+            if where == 'meta':
+                g.metadata['m'] = [1.0]
+            g.append({'id': 'r0', 'a': 5.0})
+            g.append({'id': 'r1', 'a': 6.0})
+            g.append({'id': 'r2', 'l': [1.0] if where == 'row' else 'x'})
+            st.count('executions')
+            out = run_filter(hs, g, text, limit)
+            sig = {'part': 'unversioned-source', 'where': where, 'empty_filter': text == '', 'limit': bool(limit)}
+            case = {'part': 'unversioned', 'filter': text, 'limit': limit, 'where': where}
+            st.case(('unversioned', where, text, limit), outcome=('unversioned', out[0]))
+            if out[0] != 'ok':
+                st.fail('filter-raised-on-a-row-with-definite-value', dict(sig, exc=out[1]), case, {'exc': out[2]})
+                continue
+            res = out[1]
+            if str(res.version) != str(g.version) or list(res.metadata.items()) != list(g.metadata.items()) or list(res.column.keys()) != list(g.column.keys()):
+                st.fail('filter-result-lost-version-metadata-or-columns', sig, case, {'source_version': str(g.version), 'result_version': str(res.version)})
+
+
 def spacing_checks(st):
     """Operators without surrounding blanks, tabs, leading/trailing blanks."""
     import hszinc as hs
@@ -434,6 +460,7 @@ def run(ctx):
         st.merge(part)
     limit_checks(st)
     spacing_checks(st)
+    unversioned_checks(st)
     ex = st.c.get('executions', 0)
     st.c['states'], st.c['transitions'] = ex + 1, ex
     return {
@@ -470,6 +497,8 @@ def replay(case, st):
         st.merge(composition_task([(case['literal'], case['op'], case['k'])]))
     elif p == 'limit':
         limit_checks(st)
+    elif p == 'unversioned':
+        unversioned_checks(st)
     else:
         spacing_checks(st)
 
